@@ -290,8 +290,10 @@ def items(tier, seed):
         yield from spaces.mk(['nest33'], k=1, **rich)
     # a contained (non-critical) raise and a critical raise inside the
     # nested scheduler, every critical combination along the chain
-    yield from spaces.mk(
-        ['nest22'] + (['nest23'] if th else []), force='product',
+    for shp, kk in ((['nest22'], 2 if th else 1),) + (
+            ((['nest23'], 1),) if th else ()):
+      yield from spaces.mk(
+        shp, force='product',
         fargs={'parts': [
             ('outcomes', {'where': 'n'}),
             ('mods', {'alts': [[], [('n', 'critical', True)]]}),
@@ -299,7 +301,7 @@ def items(tier, seed):
                                [('top', 'k', 'nest'),
                                 ('top', 'critical', True)]]})]},
         job_open={'dur': [0, 2]}, top_open={}, nest_open={'timeout': [1, 2]},
-        k=2 if th else 1, bound=2, kind='mon')
+        k=kk, bound=2, kind='mon')
     yield from spaces.mk(['deep3'], force='each_job', fargs=crit,
                          job_open={'dur': [0, 2]},
                          top_open={'k': ['nest'], 'critical': [True]},
